@@ -137,6 +137,14 @@ def _check_minimize(prog, rep, fi, call):
             if isinstance(x, ast.Assign) and any(isinstance(t, ast.Name) and t.id == f for t in x.targets) and isinstance(x.value, ast.Constant) and x.value.value is True:
                 if not any(any(x is y for y in ast.walk(lp)) for lp, *_ in loop_ok) and not _in_bounds_loop(x, fi, assigns, res):
                     raise AnalysisError(f"{fname}: violation flag {f} is also set outside the feasibility loop (idiom not recognised)")
+    if not loop_ok:
+        # no feasibility loop in this function: is the evaluation of the records done in a helper?
+        from .common import helper_closure
+        for h in helper_closure(prog, fi, depth=2):
+            if h is fi:
+                continue
+            if any(isinstance(x, ast.Call) and isinstance(x.func, ast.Subscript) and isinstance(x.func.slice, ast.Constant) and x.func.slice.value == "fun" for x in ast.walk(h.node)) and any(isinstance(c_, ast.Call) and dotted(c_.func) == h.name for c_ in walk_local(fi.node)):
+                raise AnalysisError(f"{fname}: the constraint records are evaluated in helper {h.name}(); how its result decides the status is not followed on this view")
     sites = [(st, n) for st, n in status_sites(fi) if st == "OPTIMAL"]
     if not sites:
         raise AnalysisError(f"{fname}: no site produces SolverStatus.OPTIMAL (subject vanished)")
@@ -410,7 +418,28 @@ def _check_linprog(prog, rep, fi, call):
         pc = path_condition(n)
         key = own_test(n)
         par_d = getattr(n, "_parent", None)
-        if isinstance(par_d, ast.Dict):
+        if isinstance(par_d, (ast.Tuple, ast.List)):
+            # ordered status table ((code, SolverStatus.X), ...) scanned by `for k, v in TABLE: if <res>.status == k: status = v`
+            row = par_d
+            table = getattr(row, "_parent", None)
+            k_ = [e for e in row.elts if e is not n]
+            names = [nm for nm, vals in assigns0.items() if any(v is table for v in vals)] if isinstance(table, (ast.Tuple, ast.List)) else []
+            scan = None
+            for lp_ in [x for x in walk_local(fi.node) if isinstance(x, ast.For) and isinstance(x.iter, ast.Name) and x.iter.id in names and isinstance(x.target, ast.Tuple) and len(x.target.elts) == 2]:
+                kv, vv = [src(e) for e in lp_.target.elts]
+                for if_ in [y for y in lp_.body if isinstance(y, ast.If)]:
+                    t = if_.test
+                    if isinstance(t, ast.Compare) and len(t.ops) == 1 and isinstance(t.ops[0], ast.Eq) and {src(t.left), src(t.comparators[0])} & {kv}:
+                        other = src(t.comparators[0]) if src(t.left) == kv else src(t.left)
+                        other_v = [src(v) for v in assigns0.get(other, []) if isinstance(v, ast.AST)] or [other]
+                        if f"{res}.status" in other_v and any(isinstance(z, ast.Assign) and src(z.value) == vv for z in if_.body):
+                            scan = lp_
+            if not (len(k_) == 1 and isinstance(k_[0], ast.Constant) and scan is not None):
+                rep.undecided(f"{fname}: SolverStatus.{st} sits in a table at line {par_d.lineno} whose use this rule cannot follow")
+                continue
+            pc = And(path_condition(scan), atom(f"{res}.status == {k_[0].value}"))
+            key = f"table[{k_[0].value}]"
+        elif isinstance(par_d, ast.Dict):
             # status table {code: SolverStatus.X} looked up with the backend's status code
             k = [kk for kk, vv in zip(par_d.keys, par_d.values) if vv is n]
             names = [nm for nm, vals in assigns0.items() if any(v is par_d for v in vals)]
